@@ -475,6 +475,9 @@ Proof.
       set (h1 := {| h_issued := k :: h_issued h; h_latched := h_latched h |}).
       assert (Hi : In k (h_issued h1)) by (left; reflexivity).
       assert (Hst := store_cut_guarded f k fs h1 Hi).
+      destruct (negb (hex_ok (key_value k))).
+      { cbn [snd]. rewrite expand_app. unfold expand at 2. cbn [flat_map expand1 app]. rewrite Ea.
+        apply Hpre. exact I. }
       destruct (store_ok f) eqn:Eso; cbn [negb].
       * (* store complete *)
         assert (Hcut : store_cut f k = store_events k).
@@ -482,12 +485,11 @@ Proof.
         assert (Hatt : forall b, pre (run_levs (fs, h1) (map LFs (store_cut f k))) (LAttest k b)).
         { intros b. rewrite run_levs_fs, Hcut. destruct b; [|exact I]. cbn [pre fst snd].
           split; [apply run_store|exact Hi]. }
-        destruct (negb (check_ok k rb)); [|destruct (negb (hex_ok (key_value k)))];
-          [| |destruct (match f_attest f with AttOk => true | _ => false end) eqn:Eat; cbn [negb]];
+        destruct (negb (check_ok k rb));
+          [|destruct (match f_attest f with AttOk => true | _ => false end) eqn:Eat; cbn [negb]];
           cbn [snd]; rewrite expand_app; unfold expand at 2; cbn [flat_map expand1 app]; rewrite Ea;
           apply Hpre; rewrite <- ?app_assoc;
           (apply guarded_app; split; [exact Hst|]).
-        -- cbn. auto.
         -- cbn. auto.
         -- cbn [app guarded]. split; [exact I|]. cbn [apply_lev].
            rewrite (quiet_apply _ (LNop (EReadBack k)) eq_refl).
@@ -588,11 +590,11 @@ Proof.
   { cbn [snd] in H. apply in_app_or in H. destruct H as [H|[H|[]]]; [contradiction|discriminate]. }
   destruct (a_acquire a) as [ka|].
   2:{ cbn [snd] in H. apply in_app_or in H. destruct H as [H|[H|[]]]; [contradiction|discriminate]. }
+  destruct (hex_ok (key_value ka)); cbn [negb] in *.
+  2:{ cbn [snd] in H. apply in_app_or in H. destruct H as [H|[H|[]]]; [contradiction|discriminate]. }
   destruct (a_store a) eqn:Es; cbn [negb] in *.
   2:{ cbn [snd] in H. apply in_app_or in H. destruct H as [H|[H|[H|[]]]]; [contradiction|discriminate|discriminate]. }
   destruct (check_ok ka (a_readback a)) eqn:Ec; cbn [negb] in *.
-  2:{ cbn [snd] in H. apply in_app_or in H. destruct H as [H|[H|[H|[H|[]]]]]; [contradiction|discriminate..]. }
-  destruct (hex_ok (key_value ka)); cbn [negb] in *.
   2:{ cbn [snd] in H. apply in_app_or in H. destruct H as [H|[H|[H|[H|[]]]]]; [contradiction|discriminate..]. }
   destruct (a_attest a); cbn [negb snd] in *.
   - apply in_app_or in H. destruct H as [H|[H|[H|[H|[H|[H|[]]]]]]]; try contradiction; try discriminate.
@@ -692,15 +694,15 @@ Proof.
   - destruct (a_local a) as [kl|] eqn:El.
     + inversion H; subst. left. exists g. auto.
     + destruct (a_acquire a) as [ka|]; [|discriminate].
+      destruct (negb (hex_ok (key_value ka))); [discriminate|].
       destruct (negb (a_store a)); [discriminate|].
       destruct (negb (check_ok ka (a_readback a))); [discriminate|].
-      destruct (negb (hex_ok (key_value ka))); [discriminate|].
       destruct (a_attest a) eqn:Et; cbn [negb] in H; [|discriminate].
       inversion H; subst. right. split; [|reflexivity]. cbn. auto 10.
   - destruct (a_acquire a) as [ka|]; [|discriminate].
+    destruct (negb (hex_ok (key_value ka))); [discriminate|].
     destruct (negb (a_store a)); [discriminate|].
     destruct (negb (check_ok ka (a_readback a))); [discriminate|].
-    destruct (negb (hex_ok (key_value ka))); [discriminate|].
     destruct (a_attest a) eqn:Et; cbn [negb] in H; [|discriminate].
     inversion H; subst. right. split; [|reflexivity]. cbn. auto 10.
 Qed.
